@@ -567,6 +567,20 @@ def S_C16d():
     return not all(np.allclose(e, l, rtol=5e-7, atol=0) for e, l in zip(eager, lazy))
 
 
+def S_C08b():
+    """TckFile.save must refuse a point that is all inf (read back as the end-of-file marker: a file cut
+    right after it loaded silently with fewer streamlines) or all NaN (read back as a delimiter)"""
+    from nibabel.streamlines import TckFile, Tractogram
+    for bad in ([np.inf, -np.inf, np.inf], [np.nan] * 3):
+        sl = [np.array([[1., 2., 3.]], dtype='f4'), np.array([bad, [4., 5., 6.]], dtype='f4'), np.array([[7., 8., 9.]], dtype='f4')]
+        try:
+            TckFile(Tractogram(sl, affine_to_rasmm=np.eye(4))).save(io.BytesIO())
+            return True
+        except Exception:
+            pass
+    return False
+
+
 def S_C16c():
     """items of a lazily loaded TRK must carry the RAS+mm points (they carried the raw voxmm
     points); saving the lazily loaded tractogram as TCK must write the RAS+mm points"""
